@@ -612,7 +612,11 @@ pub fn long_line(ctx: &BoardCtx, root: &Pos, plies: usize, rule: u64) -> u64 {
             // prefer reversible moves so the line goes on; fixed, reproducible choice
             let cands: Vec<&Mv> = {
                 let quiet: Vec<&Mv> = legal.iter().filter(|m| !m.is_capture() && m.piece != PAWN && p.make(m).has_legal_move()).collect();
-                if quiet.is_empty() || (ply as u64 * 2654435761 + rule) % 97 == 0 {
+                if p.half >= 4095 {
+                    // the properties quantify over half-move clocks 0..4095: at the upper end only a
+                    // move that resets the clock keeps the line inside the domain
+                    legal.iter().filter(|m| (m.is_capture() || m.piece == PAWN) && p.make(m).has_legal_move()).collect()
+                } else if quiet.is_empty() || (ply as u64 * 2654435761 + rule) % 97 == 0 {
                     legal.iter().filter(|m| p.make(m).has_legal_move()).collect()
                 } else {
                     quiet
